@@ -107,7 +107,7 @@ CLAIMED["C16"] = dict(
          "(model of Contraction._determine_contracted_and_target / _determine_scaling) are compared with every Contraction object "
          "constructed during the run; proved: contracted and target indices partition the operand indices, term targets / external "
          "indices are never summed, total = sum of the per-space exponents, and step_le_single: a step over indices of the term never "
-         "scales worse than the single simultaneous contraction in the code's own (lexicographic) order. Two genuine defects were repaired (fix: commits).",
+         "scales worse than the single simultaneous contraction in the code's own (lexicographic) order. Three genuine defects were repaired (fix: commits).",
     note=TB + "Scheme->tree conversion and the limit oracle are python (harness/props/c16.py). Inputs are sampled.")
 
 CLAIMED["C17"] = dict(
